@@ -550,6 +550,7 @@ func c20Seed(c *mc.Ctx, payload c20Case) {
 		}
 	}
 	var res c20Res
+	var kept, snap [][]float64
 	vrt.CatchExitAlways.Store(true)
 	pn, msg, exited := mc.GuardExit(func() {
 		if cs.Procs > 0 {
@@ -559,10 +560,21 @@ func c20Seed(c *mc.Ctx, payload c20Case) {
 		for _, l := range cs.Prior {
 			prior := cs
 			prior.L = l
-			c20Apply(prior)
+			pr := c20Apply(prior)
+			kept = append(kept, pr.W)
+			snap = append(snap, append([]float64{}, pr.W...))
 		}
 		res = c20Apply(cs)
 	})
+	// a sample handed out earlier belongs to its caller: it reads as before after the later calls
+	for i := range kept {
+		for j := range kept[i] {
+			if kept[i][j] != snap[i][j] && !(math.IsNaN(kept[i][j]) && math.IsNaN(snap[i][j])) {
+				c.Violation("C20/"+cs.Op+"/earlier-sample-changed-by-later-call", fmt.Sprintf("value %d of the sample drawn by call %d (length %d) was %v and reads %v after the later calls; seeded case %s", j, i, cs.Prior[i], snap[i][j], kept[i][j], jsonStr(payload)), payload)
+				return
+			}
+		}
+	}
 
 	if pn {
 		c.Violation("C20/"+cs.Op+"/panic/"+mc.PanicSite(msg), msg+"; seeded case "+jsonStr(payload), payload)
